@@ -37,6 +37,10 @@ func VerifC06Tick() {
 	vAssume(alpha("subscribeForNewEpoch", vContractHash("probe1")))
 	vAssume(alpha("subscribeForNewEpoch", vContractHash("probe2")))
 	vAssume(alpha("subscribeForNewEpoch", vContractHash("probe1"))) // twice: no additional effect
+	if c := vParam(0); c > 0 { // param 0: the number of kept snapshots (0: the default of 10). With 1 the list
+		// published by a tick is also the oldest one kept: a clean-up that is one epoch too eager deletes it
+		vAssume(alpha("updateSnapshotCount", c))
+	}
 	bad := vInt("epochRefusedByProbe2")
 	vSign(vAcct("anyone"), true)
 	ok, _ := vInvoke("probe2", "failAt", bad)
